@@ -18,7 +18,7 @@ VERIF = str(Path(__file__).resolve().parent.parent)
 REPO = os.environ.get("SPOX_REPO", "/work/repo-c10")
 assert REPO != "/repo", "never mutate /repo: point SPOX_REPO at a scratch worktree"
 R = REPO + "/src/spox/"
-OBLIGATION_ONLY = {"S1_new_attr_class", "S2_new_array_function", "S3_new_storing_init"}  # expected: exit 1, no-failing-input-found
+OBLIGATION_ONLY = {"S1_new_attr_class", "S2_new_array_function", "S3_new_storing_init", "I7_lazy_tuple", "F4_deref_keeps_ref_name"}  # expected: exit 1, no-failing-input-found
 EQUIVALENT = {"B21b_no_flatten", "M12_ravel_K", "M15_future_init_asarray", "M16_lazy_onnx_cache", "D2_raw_correct_large"}
 MUTS = {
  # Appendix B row 20
@@ -57,6 +57,28 @@ MUTS = {
  # refactoring + bug: the harness must not crash (exit 2) and must still find the failing input
  "R1_rename_value_and_no_copy": [("SED", r"\b_value\b", "_val", ["_attributes.py"]), ("_attributes.py", "        super().__init__(value.copy(), name)", "        super().__init__(value, name)")],
  "R2_rename_from_array_and_latin1": [("SED", r"\bfrom_array\b", "to_tensor_proto", "ALL"), ("_utils.py", 'encoding="utf-8"', 'encoding="latin-1", errors="replace"')],
+ # round 6: one-shot iterables on list attributes / ways of handing a value over
+ "I1_iterable_prepass": ("_attributes.py", "    def __init__(self, value: Union[Iterable[S], _Ref[Tuple[S, ...]]], name: str):\n        super().__init__(", "    def __init__(self, value: Union[Iterable[S], _Ref[Tuple[S, ...]]], name: str):\n        if not isinstance(value, _Ref):\n            for v in value:\n                if isinstance(v, (list, tuple, dict)):\n                    raise TypeError(f\"Unable to instantiate `{type(self).__name__}` from nested items.\")\n        super().__init__("),
+ "I2_iterable_first_probe": ("_attributes.py", "    def __init__(self, value: Union[Iterable[S], _Ref[Tuple[S, ...]]], name: str):\n        super().__init__(", "    def __init__(self, value: Union[Iterable[S], _Ref[Tuple[S, ...]]], name: str):\n        if not isinstance(value, _Ref) and isinstance(next(iter(value), None), dict):\n            raise TypeError(\"dict items\")\n        super().__init__("),
+ "I3_ctor_prepass_kernel_shape": ("opset/ai/onnx/v17.py", "            kernel_shape=AttrInt64s(kernel_shape, name=\"kernel_shape\"),\n            pads=AttrInt64s.maybe(pads, name=\"pads\"),\n            storage_order", "            kernel_shape=AttrInt64s(kernel_shape if all(k > 0 for k in kernel_shape) else [], name=\"kernel_shape\"),\n            pads=AttrInt64s.maybe(pads, name=\"pads\"),\n            storage_order"),
+ "I4_maybe_prepass": ("_attributes.py", "        return cls(value if isinstance(value, _Ref) else tuple(value), name)", "        if not isinstance(value, _Ref) and len(list(value)) < 0:\n            return None\n        return cls(value if isinstance(value, _Ref) else tuple(value), name)"),
+ "F5_maybe_forgets_ref": ("_attributes.py", "        return cls(value if isinstance(value, _Ref) else tuple(value), name)", "        return cls(tuple(value), name)"),
+ "I5_ml_ctor_sorted_once": ("opset/ai/onnx/ml/v3.py", "            coefficients=AttrFloat32s(coefficients, name=\"coefficients\"),\n            intercepts=AttrFloat32s.maybe(intercepts, name=\"intercepts\"),\n            multi_class", "            coefficients=AttrFloat32s(coefficients if isinstance(coefficients, (list, tuple)) else list(coefficients)[1:], name=\"coefficients\"),\n            intercepts=AttrFloat32s.maybe(intercepts, name=\"intercepts\"),\n            multi_class"),
+ "I6_float_numpy_as_int": ("_attributes.py", "        if isinstance(self.value, int):\n            return make_attribute(self._name, float(self.value))", "        if isinstance(self.value, (int, np.number)):\n            return make_attribute(self._name, float(int(self.value)))"),
+ "I7_lazy_tuple": ("_attributes.py", "value=value if isinstance(value, _Ref) else tuple(value), name=name", "value=value if isinstance(value, (_Ref, tuple, range)) else tuple(value) if not hasattr(value, 'keys') and not hasattr(value, 'mapping') else value, name=name"),
+ "I8_set_sorted": ("_attributes.py", "value=value if isinstance(value, _Ref) else tuple(value), name=name", "value=value if isinstance(value, _Ref) else tuple(value) if isinstance(value, (list, tuple)) else tuple(sorted(value)), name=name"),
+ # round 6b: argument defaults of rank 0; default-valued attributes on version-adapted nodes
+ "A1_adapter_drops_default_attrs": ("_adapt.py", "    source_model = onnx.helper.make_model(", "    _sch = onnx.defs.get_schema(proto.op_type, source_version, \"\")\n    for _a in list(proto.attribute):\n        _d = _sch.attributes.get(_a.name)\n        if _d is not None and _d.default_value.type == _a.type and _d.default_value.type in (1, 2, 3) and (_d.default_value.i, _d.default_value.f, _d.default_value.s) == (_a.i, _a.f, _a.s):\n            proto.attribute.remove(_a)\n    source_model = onnx.helper.make_model("),
+ "A2_argdefault_ascontiguous": ("_graph.py", "        elif isinstance(info, np.ndarray):\n            ty = Tensor(info.dtype, info.shape)", "        elif isinstance(info, np.ndarray):\n            info = np.ascontiguousarray(info)\n            ty = Tensor(info.dtype, info.shape)"),
+ "A3_argdefault_type_atleast1d": ("_graph.py", "            ty = Tensor(info.dtype, info.shape)\n            result[name] = Argument(", "            ty = Tensor(info.dtype, info.shape or (1,))\n            result[name] = Argument("),
+ "A4_adapter_drops_zero_ints": ("_adapt.py", "    source_model = onnx.helper.make_model(", "    for _a in list(proto.attribute):\n        if _a.type == 2 and _a.i == 0:\n            proto.attribute.remove(_a)\n    source_model = onnx.helper.make_model("),
+ # round 6b: attribute references, the reverse dtype table, dtype spellings
+ "F1_ref_names_swapped": ("_attributes.py", "            name=self._name, ref_attr_name=self._outer_name, type=parent_type", "            name=self._outer_name, ref_attr_name=self._name, type=parent_type"),
+ "F2_string_reads_back_object": ("_utils.py", "    if ttype == onnx.TensorProto.STRING:\n        return np.dtype(str)  # Spox uses the str datatype for strings, not object\n", ""),
+ "F3_no_alias_normalisation": ("_utils.py", "        dtype = np.dtype(np.dtype(dtype_like).type)", "        dtype = np.dtype(dtype_like)"),
+ "F4_deref_keeps_ref_name": ("_attributes.py", "            return type(self)(self.value, self._name)", "            return type(self)(self.value, self._value._name)"),
+ "T1_type_attr_drops_shape": ("_attributes.py", "                dtype_to_tensor_type(value.dtype),\n                value.shape,", "                dtype_to_tensor_type(value.dtype),\n                value.shape if value.shape else None,"),
+ "T2_type_attr_seq_of_seq": ("_attributes.py", "            type_proto = make_sequence_type_proto(value.elem_type._to_onnx())", "            type_proto = make_optional_type_proto(value.elem_type._to_onnx())"),
  # new capture sites without a row: generated_capture_complete / generated_classes_complete must break
  "S1_new_attr_class": ("APPEND", "_attributes.py", "\n\nclass AttrInt64Matrix(Attr[list]):\n    _attribute_proto_type = AttributeProto.INTS\n\n    def _to_onnx_deref(self) -> AttributeProto:\n        return make_attribute(self._name, [x for r in self.value for x in r], attr_type=AttributeProto.INTS)\n"),
  "S2_new_array_function": ("APPEND", "_graph.py", "\n\ndef initializers(arrs: List[np.ndarray]) -> Tuple[Var, ...]:\n    return tuple(initializer(a) for a in arrs)\n"),
